@@ -42,6 +42,8 @@ ID = "C10"
 NEEDS_GEN = True
 LEAN_TARGETS = ["AiuVerif.Props.C10", "AiuVerif.Props.Order"]
 THEOREMS = [
+    "AiuVerif.C10.clamp_spec",
+    "AiuVerif.C10.clamp_at_bound",
     "AiuVerif.C10.power_refines_spec",
     "AiuVerif.C10.nonneg",
     "AiuVerif.C10.at_most_100",
